@@ -12,7 +12,7 @@ RULE = ("(a) point blocks of 0..6 points written in Praat style (trailing blanks
         "number tokens = integers, 1-17 digit decimals, exponents, negatives, zero, read by klattgrid._processSectionData; (b) "
         "PointProcess / PitchTier / DurationTier objects with 0..8 points x spans, saved, the text compared with the writer model, "
         "reopened (short form) and compared; the same data written in Praat's long text form by the harness and opened; (c) the "
-        "reference KlattGrid and synthetic KlattGrids (1..5 formants, 0..5 points per tier, Praat style) opened, optionally "
+        "reference KlattGrid and synthetic KlattGrids (1..5, sometimes 10..12 formants, 0..5, sometimes 10..13 points per tier, Praat style) opened, optionally "
         "modified through modifySubtiers / modifyValues on a random subset of tiers with scalings by non-terminating decimals, "
         "constants (integers, 0), sign changes, 1e+-300 magnitudes, saved, reopened, saved again; non-trivial = at least one point")
 EXPLANATION = ("Props/C19.v proves that the point rows written for a KlattGrid tier are read back as exactly the same (time, value) "
@@ -115,7 +115,7 @@ def write_klatt(rng, xmax):
     exp = []
 
     def rpts():
-        n = rng.randint(0, 5)
+        n = rng.randint(0, 5) if rng.random() < 0.93 else rng.randint(10, 13)      # now and then two-digit point indices
         times = sorted(set(min(round(rng.uniform(0, xmax), rng.randint(1, 12)), xmax) for _ in range(n)))
         return [(tok(rng, t), tok(rng, rnum(rng))) for t in times]
 
@@ -139,7 +139,7 @@ def write_klatt(rng, xmax):
                 lines.extend(_pts_block(pts, "    "))
                 exp.append(((name, sub, "%s [%d]" % (sub, k + 1)), "0", X, pts))
 
-    nf = rng.randint(1, 5)
+    nf = rng.randint(1, 5) if rng.random() < 0.9 else rng.randint(10, 12)       # now and then two-digit formant indices
     null("phonation")
     for nm in SIMPLE:
         simple(nm)
